@@ -9,7 +9,7 @@ namespace Chewing
 open Gen
 
 /-- a key event with the given key code and key index (the single-syllable layouts read nothing else) -/
-def mkKey (x : Nat) : KeyEvent := { index := x, code := x, unicode := 0, mods := 0 }
+def mkKey (x : Nat) : KeyEv := { index := x, code := x, unicode := 0, mods := 0 }
 
 /-- the code of the toneless tuple `(i, m, r)` (= `encode i m r 0`, in a form the kernel evaluates cheaply) -/
 def codeOf (i m r : Nat) : Nat := if i + m + r == 0 then 32768 else i * 512 + m * 128 + r * 8
